@@ -2110,10 +2110,6 @@ class NumpyTensorSpaceArrayWeighting(ArrayWeighting):
         super(NumpyTensorSpaceArrayWeighting, self).__init__(
             array, impl='numpy', exponent=exponent)
 
-    def __hash__(self):
-        """Return ``hash(self)``."""
-        return hash((type(self), self.array.tobytes(), self.exponent))
-
     def inner(self, x1, x2):
         """Return the weighted inner product of ``x1`` and ``x2``.
 
